@@ -70,7 +70,7 @@ var (
 		"/$1$", "${DC/x}", "/x$", "/#", "${DC", "$$/", "/${D C}", "/$DC$DC", "${*}/", "$-x/", "/\\", "FOO.com", ":12 34", "/x\r", "/\u2028", "\u00e9.com/", // hosts: ASCII or lower-case (the model lower-cases ASCII only, DESIGN.md §5)
 		"/x\thttp://evil:1/\nroute\tdel\tsvc-a\nroute\tadd\tsvc-b\t/y"}
 	okOpts = []string{"proto=tcp", "proto=https", "proto=grpc", "proto=grpcs", "proto=http", "weight=0.5", "weight=1", "weight=0", "weight=0.25",
-		"strip=/foo", "prepend=/x", "host=dst", "host=foo.com", "tlsskipverify=true", "register=alias", "auth=basic", "pxyproto=true",
+		"strip=/foo", "prepend=/x", "host=dst", "host=foo.com", "tlsskipverify=true", "register=alias", "register=", "register", "register=svc-a", "auth=basic", "pxyproto=true",
 		"allow=ip:10.0.0.0/8", "deny=ip:1.2.3.4/32", "redirect=301,https://www.bar.com", "redirect=302,http://x/$path", "flag", "k=v=w", "é=ü"}
 	oddOpts = []string{"weight=-1", "weight=abc", "weight=Inf", "weight=NaN", "weight=1e999", "weight=", "weight=0x1p-2", "weight=1e-320", "weight=+Inf",
 		"redirect=301", "redirect=301,", "redirect=1,2,3", "redirect=,http://a/", "redirect=301,ht tp://x", "redirect=301,http://[::1", "=v", "q\"x", "a\\b",
@@ -80,6 +80,41 @@ var (
 	oddPlain  = []string{"a,b", "ta\"g", "back\\slash", "tab\there", "new\nline", "", "  ", "\x00nul", "\u0085", "x\u2028y", "q\"\\", "a\\\"b",
 		"\" opts \"x=y", "a\" tags \"b", "plain\r", " padded ", ",", "\"", "\\", "a\vb", "\u00a0nb", "x\nroute del svc-a", "\x7f", "\u200b"}
 )
+
+// genWeight draws a weight text strconv.ParseFloat reads as a finite number: few or many decimals (a canary's
+// 0.00004, 0.12345), values next to a rounding boundary, exponent notation in both cases, a leading dot or sign,
+// leading/trailing zeros, values above 1, the smallest denormals.
+func genWeight(r *hx.Rand) string {
+	digits := func(n int) string {
+		b := make([]byte, n)
+		for i := range b {
+			b[i] = byte('0' + r.Intn(10))
+		}
+		return string(b)
+	}
+	switch r.Intn(10) {
+	case 0:
+		return "0." + digits(1+r.Intn(2))
+	case 1:
+		return "0." + digits(3+r.Intn(10))
+	case 2:
+		return "0." + strings.Repeat("0", 2+r.Intn(5)) + digits(1+r.Intn(3))
+	case 3:
+		return r.Pick([]string{"0.99996", "0.99994", "0.00005", "0.00004", "0.49995", "0.12345", "0.999999999", "1.00004"})
+	case 4:
+		return digits(1) + r.Pick([]string{"e-", "E-", "e-0"}) + digits(1)
+	case 5:
+		return digits(1) + "." + digits(1+r.Intn(3)) + r.Pick([]string{"e-", "E-", "e+", "e"}) + digits(1)
+	case 6:
+		return "." + digits(1+r.Intn(6))
+	case 7:
+		return r.Pick([]string{"+", "-", "0", "00"}) + "0." + digits(1+r.Intn(4)) + r.Pick([]string{"", "0", "000"})
+	case 8:
+		return digits(1+r.Intn(4)) + r.Pick([]string{"", ".", "." + digits(1+r.Intn(5))})
+	default:
+		return r.Pick([]string{"1e-320", "4.9e-324", "1e-7", "2.5e-05", "0x1p-2", "1e0", "100e-2", "0.1e1"})
+	}
+}
 
 func genTag(r *hx.Rand, prefix string, hostile bool) string {
 	route := r.Pick(okRoutes)
@@ -111,9 +146,12 @@ func genTag(r *hx.Rand, prefix string, hostile bool) string {
 		} else {
 			b.WriteString(r.Pick(optSeps))
 		}
-		if hostile && r.Chance(1, 3) {
+		switch {
+		case hostile && r.Chance(1, 3):
 			b.WriteString(r.Pick(oddOpts))
-		} else {
+		case r.Chance(1, 6):
+			b.WriteString("weight=" + genWeight(r))
+		default:
 			b.WriteString(r.Pick(okOpts))
 		}
 	}
